@@ -131,6 +131,28 @@ def gen_episode(rnd: random.Random, fine: bool = True) -> Episode:
     return e
 
 
+def gen_coarse(rnd: random.Random) -> Episode:
+    """Episodes in which no two events coincide (all times on distinct sub-millisecond offsets):
+    the macro-step model applies exactly."""
+    e = Episode()
+    e.mode = rnd.choice((None, False, True))
+    n_calls = rnd.choice((1, 2, 3, 4))
+    pool = rnd.sample(range(len(POOL)), n_calls)
+    t = 0.0
+    for i in range(n_calls):
+        t += rnd.choice((0.0, 0.0031, 0.3007, 2.0013)) + 0.0001 * (i + 1)
+        e.calls.append({"t": round(t, 6), "cmd": pool[i], "prio": rnd.choice((-2, 0, 0, 2, 4)), "max_retries": rnd.choice((0, 1, 2, 3, 5)),
+                        "timeout": rnd.choice((20.0, 30.0, 5.2003, 2.3007, 0.8011)), "wfr": rnd.choice((None, True, False))})
+    for c in pool:
+        for n in range(1, 6):
+            echo = None if rnd.random() < 0.35 else rnd.choice((0.0201, 0.1003, 0.4507))
+            reply = None if rnd.random() < 0.3 else rnd.choice((0.0509, 0.1207, 0.3011, 0.0103))
+            e.tx[(c, n)] = {"echo": echo, "reply": reply, "dup": rnd.random() < 0.15, "fail": rnd.random() < 0.07}
+    for _ in range(rnd.choice((0, 0, 1, 2))):
+        e.events.append((round(rnd.uniform(0.05, 9.0), 3) + 0.000377, rnd.choice(("conn_lost", "conn_lost_made", "foreign")), rnd.randrange(len(FOREIGN))))
+    return e
+
+
 class Result:
     def __init__(self) -> None:
         self.writes: list = []        # (t, frame)
@@ -144,6 +166,8 @@ class Result:
         self.deadlock = False
         self.lock_held = False
         self.conn_lost_at: list = []
+        self.pkts: list = []          # (t, 'echo'|'reply', pool idx) at delivery
+        self.conn: list = []          # (t, 'lost'|'made')
 
 
 def run_episode(ep: Episode) -> Result:
@@ -192,17 +216,21 @@ def run_episode(ep: Episode) -> Result:
                 sc = ep.tx.get((idx, n), {"echo": 0.02, "reply": 0.1, "dup": False, "fail": False})
                 if sc["fail"]:
                     raise exc.TransportError("write failed (scripted)")
+                def deliver(kind, pkt):
+                    res.pkts.append((loop.time(), kind, idx))
+                    protocol.pkt_received(pkt)
+
                 if sc["echo"] is not None:
                     pkt = Packet.from_port(VClockDt.now(), "000 " + frame.replace(HGI, GWY))
-                    loop.call_at(now + sc["echo"], protocol.pkt_received, pkt)
+                    loop.call_at(now + sc["echo"], deliver, "echo", pkt)
                     if sc["dup"]:
-                        loop.call_at(now + sc["echo"] + 0.03, protocol.pkt_received, pkt)
+                        loop.call_at(now + sc["echo"] + 0.03, deliver, "echo", pkt)
                 reply = POOL[idx][1]
                 if sc["reply"] is not None and reply is not None:
                     rp = Packet.from_port(VClockDt.now(), "045 " + reply)
-                    loop.call_at(now + sc["reply"], protocol.pkt_received, rp)
+                    loop.call_at(now + sc["reply"], deliver, "reply", rp)
                     if sc["dup"]:
-                        loop.call_at(now + sc["reply"] + 0.04, protocol.pkt_received, rp)
+                        loop.call_at(now + sc["reply"] + 0.04, deliver, "reply", rp)
 
         transport = FakeTransport()
         protocol.connection_made(transport, ramses=True)
@@ -217,9 +245,13 @@ def run_episode(ep: Episode) -> Result:
                     protocol.pkt_received(Packet.from_port(VClockDt.now(), "050 " + FOREIGN[arg]))
                 elif kind in ("conn_lost", "conn_lost_made"):
                     res.conn_lost_at.append(loop.time())
+                    res.conn.append((loop.time(), "lost"))
                     ctx.connection_lost(None)
                     if kind == "conn_lost_made":
-                        loop.call_later(0.2, ctx.connection_made, transport)
+                        def remake():
+                            res.conn.append((loop.time(), "made"))
+                            ctx.connection_made(transport)
+                        loop.call_later(0.2, remake)
             except Exception as e:  # noqa: BLE001  (a callback raising = reaches the loop handler)
                 loop.errors.append(e)
 
